@@ -164,12 +164,12 @@ class CallGraph(object):
         elif k in ('Use', 'Cast', 'Repeat'):
             self._operand_refs(rv['op'], out)
 
-    def reachable(self, roots):
+    def reachable(self, roots, blocked=()):
         seen = {}
         st = [(r, None) for r in roots]
         while st:
             f, parent = st.pop()
-            if f in seen:
+            if f in seen or f in blocked:
                 continue
             seen[f] = parent
             for g in self.edges.get(f, ()):
